@@ -111,6 +111,50 @@ SCENARIOS = [
 ]
 
 
+def arity_scenarios():
+    """A callable that declares n parameters is called with k != n arguments through every route a call can take (method invoked on the
+    instance, method value, bound method kept in a field / a map / a module-level variable, static method, constructor, super call,
+    plain function, lambda): the call is a TypeError naming n and k, nothing else happens - in particular the caller's own variables,
+    which lie directly below the call on the value stack, are what they were."""
+    out = []
+    for n in range(0, 5):
+        params = ", ".join("p%d" % i for i in range(n))
+        sp = (", " + params) if n else ""
+        lines = ["#[constructor(new)]", "class Base { fn m(self%s) { return \"base m\"; } }" % sp,
+                 "#[derive(Base)]", "class K {", "    #[constructor]", "    fn new(self) { self.tag = \"K instance\"; }",
+                 "    fn m(self%s) { return \"m\"; }" % sp, "    fn up(self, k) { CALLS_SUPER }", "    #[static]", "    fn s(%s) { return \"s\"; }" % params, "}",
+                 "class Made {", "    #[constructor]", "    fn make(self%s) { self.ok = true; }" % sp, "}",
+                 "#[constructor(new)]", "class Holder {}",
+                 "fn plain(%s) { return \"plain\"; }" % params, "var lam = |%s| \"lam\";" % params,
+                 "fn show(v) { if type(v) == String { return v; } return \"<\" + String.from(type(v)) + \">\"; }"]
+        def calls(callee):
+            return " ".join("if k == %d { %s(%s); }" % (k, callee, ", ".join(str(j) for j in range(k))) for k in range(0, 6) if k != n)
+        lines[7] = lines[7].replace("CALLS_SUPER", 'var left = "left"; var right = "right"; try { %s } catch e { print("super: " + e.context); } print(show(left) + " " + show(right));'
+                                    % calls("super.m"))
+        routes = [("invoke", "inst.m", ""), ("value", "f", "var f = inst.m;"), ("field", "h.f", "var h = Holder.new(); h.f = inst.m;"),
+                  ("map", "mp.get(\"f\")", "var mp = {\"f\": inst.m};"), ("static", "K.s", ""), ("static-value", "sv", "var sv = K.s;"),
+                  ("ctor", "Made.make", ""), ("ctor-value", "cv", "var cv = Made.make;"), ("plain", "plain", ""), ("lambda", "lam", ""),
+                  ("lambda-field", "h2.g", "var h2 = Holder.new(); h2.g = lam;")]
+        for rname, callee, setup in routes:
+            lines += ["fn via_%s(inst, k) {" % rname.replace("-", "_"), '    var left = "left";', "    %s" % setup, '    var right = "right";',
+                      '    try { %s print("no error"); } catch e { print("%s: " + e.context); }' % (calls(callee), rname),
+                      "    print(show(left) + \" \" + show(right));", "}"]
+        exp = []
+        lines.append("var inst = K.new();")
+        for k in range(0, 6):
+            if k == n:
+                continue
+            for rname, _, _ in routes:
+                lines.append("via_%s(inst, %d);" % (rname.replace("-", "_"), k))
+                exp += ["%s: Expected %d arguments but found %d." % (rname, n, k), "left right"]
+            lines.append("inst.up(%d);" % k)
+            exp += ["super: Expected %d arguments but found %d." % (n, k), "left right"]
+        lines.append('print(inst.tag);')
+        exp.append("K instance")
+        out.append(("wrong-arity-%d-parameters-every-route" % n, "\n".join(lines) + "\n", exp))
+    return out
+
+
 def hier_requests(rng, n):
     """Random hierarchies for the model driver + the Yarel program that answers the same queries on the implementation."""
     out = []
@@ -139,6 +183,9 @@ def hier_requests(rng, n):
                 src.append('try { print(%s.%s()); } catch e { if type(e) == AttributeError { print("none"); } else { print("err " + String.from(type(e))); } }' % (nm, m))
         out.append(("hier %s | %s" % (";".join(classes), ";".join(queries)), "\n".join(src) + "\n"))
     return out
+
+
+SCENARIOS += arity_scenarios()
 
 
 def correspondence(ctx, model_ok=True):
